@@ -215,6 +215,25 @@ theorem run_add (E : Env α β υ ε σ) :
       obtain ⟨h1, h2, h3⟩ := ih n w1 s1 w' s' h
       simp only [h1, h2, h3, List.append_assoc, and_self]
 
+/-- Fuel is only a proof device: once a run has ended, more fuel changes nothing. -/
+theorem run_mono (E : Env α β υ ε σ) :
+    ∀ (n k : Nat) (w : σ) (s : SState α β), (run E n w s).out ≠ .outOfFuel →
+      run E (n + k) w s = run E n w s := by
+  intro n
+  induction n with
+  | zero => intro k w s h; exact absurd rfl h
+  | succ n ih =>
+    intro k w s h
+    rw [show n + 1 + k = (n + k) + 1 by omega, run_succ]
+    rw [run_succ] at h ⊢
+    rcases hstep : step E w s with ⟨w1, evs, res⟩
+    rw [hstep] at h
+    cases res with
+    | stop o => rfl
+    | next s1 =>
+      simp only at h ⊢
+      rw [ih k w1 s1 h]
+
 /-- A state the loop maps to itself: the loop never ends, sending the same message for ever. -/
 theorem run_stuck (E : Env α β υ ε σ) (w : σ) (s : SState α β) (e : Ev α β υ)
     (h : step E w s = (w, [e], .next s)) :
